@@ -79,6 +79,21 @@ audience
 end
 """
 REPEAT = "  repeat from z\n  repeat 2 times\n"
+# the repeated act holds no action and no mood: nothing but the act starts themselves is recorded during it (fix c9d1f38)
+IDLEPLAY = """role r
+  :tick true
+end
+cast
+  a plays r
+end
+script
+  tempo 600ms
+  scene p entails for a: tick
+  storyline p .
+  repeat from [.]
+  repeat 3 times
+end
+"""
 FLAGS = ["-k", "--clear", "--disable-plots", "-q"]
 OUTDIRS = ["out", "a/b/out", "ABS", "."]
 
@@ -140,6 +155,23 @@ def artifact_paths(arts, acc):
             acc.append(a["Path"])
         artifact_paths(a.get("children"), acc)
     return acc
+
+
+def gp_ranges(rundir):
+    """(script, xmin, xmax, act line positions) of every plot script"""
+    res = []
+    pd = os.path.join(rundir, "plots")
+    if not os.path.isdir(pd):
+        return res
+    for f in sorted(os.listdir(pd)):
+        if not f.endswith(".gp"):
+            continue
+        txt = open(os.path.join(pd, f)).read()
+        m = re.search(r"^set xrange \[(-?[\d.]+):(-?[\d.]+)\]$", txt, re.M)
+        if m:
+            res.append((f, float(m.group(1)), float(m.group(2)),
+                        [float(a) for a in re.findall(r"^set arrow from (-?[\d.]+), graph 0", txt, re.M)]))
+    return res
 
 
 def gp_files(rundir):
@@ -319,6 +351,9 @@ def run(tier, seed):
             text = PASTPLAY % {"lag": lag, "lag2": lag - 1}
             plays.append(e2e.Play(text, args=args, outdir_arg="out", timeout=60, keep=True))
             meta.append({"flags": args, "fouled": False, "outdir": "out", "oarg": "out", "repeat": False, "upload": None, "config": text, "how": None, "past": True})
+        for n, args in enumerate(([], ["-k"])):
+            plays.append(e2e.Play(IDLEPLAY, args=args, outdir_arg="out", timeout=60, keep=True))
+            meta.append({"flags": args, "fouled": False, "outdir": "out", "oarg": "out", "repeat": True, "upload": None, "config": IDLEPLAY, "how": None, "idle": True})
         # upload rows: a stand-in `scp` first on the PATH (documented: --upload-url implies --clear)
         bindir = os.path.join(scratch, "bin")
         os.makedirs(bindir)
@@ -335,6 +370,17 @@ def run(tier, seed):
             plays.append(e2e.Play(text, args=args, outdir_arg="out", timeout=60, keep=True, env=env))
             meta.append({"flags": args, "fouled": fouled, "outdir": "out", "oarg": "out", "repeat": False,
                          "upload": {"fails": fail, "dest": dest}, "config": text})
+        # an explicit --clear=false next to an upload URL: the upload does not imply --clear then; and --clear=false alone
+        for n, (args0, fouled, withup) in enumerate(((["--clear=false"], False, True), (["--clear=false", "-k"], False, True),
+                                                     (["--clear=false"], True, True), (["--clear=false"], False, False),
+                                                     (["--clear"], False, True))):
+            dest = os.path.join(scratch, "uploaded-x%d" % n)
+            env = {"PATH": bindir + ":" + os.environ["PATH"], "VERIF_SCP_DEST": dest}
+            args = args0 + (["--upload-url", "scp://host/results"] if withup else [])
+            text = PLAY % {"first": "ok", "last": "bad" if fouled else "ok", "pred": ">= 0", "repeat": ""}
+            plays.append(e2e.Play(text, args=args, outdir_arg="out", timeout=60, keep=True, env=env))
+            meta.append({"flags": args, "fouled": fouled, "outdir": "out", "oarg": "out", "repeat": False,
+                         "upload": {"fails": False, "dest": dest} if withup else None, "config": text})
         results = e2e.run_many(plays, workers=12)
         late = []
         for p, r, m in zip(plays, results, meta):
@@ -356,8 +402,9 @@ def run(tier, seed):
                 problems.append(("timed out", {"kind": "timeout"}))
             # model prediction
             bit = lambda x: "1" if x else "0"
+            clr = "1" if "--clear" in fl else "2" if "--clear=false" in fl else "0"
             faults = (m["fouled"], False, False, bool(up and up["fails"]))
-            mo = model.ask("C12 survive %s %s %s %s %s %s %s %s" % (bit("-k" in fl), bit("--clear" in fl), bit(up is not None), bit("--disable-plots" in fl),
+            mo = model.ask("C12 survive %s %s %s %s %s %s %s %s" % (bit("-k" in fl), clr, bit(up is not None), bit("--disable-plots" in fl),
                                                                    bit(faults[0]), bit(faults[1]), bit(faults[2]), bit(faults[3])))
             mo = dict(kv.split("=") for kv in (mo or "").split(" ") if "=" in kv)
             # observed
@@ -407,7 +454,7 @@ def run(tier, seed):
                     problems.append(("-o %s: latest -> %r names %s, not the (erased) run directory %s" % (m["oarg"], link, lexical, rundir), {"kind": "latest", "outdir": shape}))
             # O3: survive table in terms of the exit status (Lean spec)
             play_failed = bool(res_js.get("Foul")) if (res_js and "_malformed" not in res_js) else (failed and not (up and up["fails"] and not m["fouled"]))
-            o3 = model.ask("C12 oracle-survive %s %s %s %s %s %s %s %s" % (bit("-k" in fl), bit("--clear" in fl), bit(up is not None), bit("--disable-plots" in fl),
+            o3 = model.ask("C12 oracle-survive %s %s %s %s %s %s %s %s" % (bit("-k" in fl), clr, bit(up is not None), bit("--disable-plots" in fl),
                                                                          bit(play_failed), bit(failed), bit(art_kept), bit(run_kept)))
             if o3 != "ok":
                 problems.append(("flags %s, exit status %d: artifacts %s, run directory %s — %s" % (fl, r["rc"], "kept" if art_kept else "gone", "kept" if run_kept else "erased", o3), {"kind": "survive"}))
@@ -442,6 +489,19 @@ def run(tier, seed):
                     rep.count("e2e:artifact-entries", len(artifact_paths(res_js.get("Artifacts"), [])))
                     if m["repeat"] != (res_js.get("Repeat") is not None):
                         problems.append(("Repeat section %s" % res_js.get("Repeat"), {"kind": "generator"}))
+                    rp = res_js.get("Repeat")
+                    if rp and isinstance(mn, (int, float)) and isinstance(mx, (int, float)):
+                        # the start of the repeated section is a recorded time too
+                        rep.count("e2e:repeat-sections")
+                        if not (mn <= rp.get("StartTime", mn) <= mx) or rp.get("Duration", 0) < 0:
+                            problems.append(("the repeated section starts at %s and lasts %s: outside the time range [%s, %s]"
+                                             % (rp.get("StartTime"), rp.get("Duration"), mn, mx), {"kind": "range"}))
+                for gpn, lo_, hi_, arrows_ in gp_ranges(rundir):
+                    rep.count("e2e:plot-axes")
+                    if not lo_ < hi_:
+                        problems.append(("%s: set xrange [%s:%s] is empty or reversed" % (gpn, lo_, hi_), {"kind": "range"}))
+                    elif gpn == "plot.gp" and [a for a in arrows_ if not lo_ <= a <= hi_]:
+                        problems.append(("%s: act lines at %s outside the axis [%s:%s]" % (gpn, [a for a in arrows_ if not lo_ <= a <= hi_][:3], lo_, hi_), {"kind": "range"}))
                 named = gp_files(rundir)
                 rep.count("e2e:files-named-in-gp", len(named))
                 gone = [(s, f) for s, f in named if not os.path.exists(os.path.join(rundir, "plots", f))]
